@@ -74,6 +74,12 @@ impl Judge for BcJudge {
     }
     fn judge(&self, m: &Module, _cfg: Option<&CfgLite>) -> JR {
         let table = TABLE.get_or_init(|| bcverify::check_table(&cao_lang::verif::instruction_table()));
+        // an opcode the verifier does not know, or a renumbering, is a limitation of this harness
+        // (its table must be updated), not a verdict on the compiler; a span that disagrees with
+        // the operand width the compiler emits is a finding
+        if let Some((k, w)) = table.iter().find(|(k, _)| k != "table/span") {
+            cvx_core::engine::machinery_error(&format!("the bytecode verifier's opcode table is out of date ({k}: {w}); update cvx-core/src/bcverify.rs"));
+        }
         if let Some((k, w)) = table.first() {
             return JR::Fail { class: k.clone(), what: w.clone() };
         }
